@@ -673,7 +673,15 @@ class Evaluator:
             return None
         if isinstance(s, ast.AugAssign):
             cur = self.eval(_load(s.target), env)
-            v = self.binop(s.op, cur, self.eval(s.value, env))
+            rhs = self.eval(s.value, env)
+            if isinstance(cur, list) and isinstance(s.op, ast.Add):
+                cur.extend(self.iterate(rhs))  # list += is in place
+                v = cur
+            else:
+                v = self.binop(s.op, cur, rhs)
+                if isinstance(cur, Arr) and isinstance(v, Arr):
+                    cur.data = v.data  # ndarray augmented assignment is in place: aliases see it
+                    v = cur
             self.assign(s.target, v, env)
             return None
         if isinstance(s, ast.Return):
